@@ -5,6 +5,8 @@ from common import sh
 
 
 def run_traces(ctx, harness, runs, mode, explained_re, layer, sig, extra=(), timeout=300, keep=False):
+    if os.environ.get("VERIF_FAILFAST") and (ctx.violations or ctx.proof_broken):
+        return      # regression runs over seeded changes only ask "caught or not": do not sit out the time-outs of the remaining workloads
     h = ctx.harness(harness, extra=list(extra))
     drv = ctx.driver() if mode else None
     procs, paths, items = [], [], 0
